@@ -31,6 +31,9 @@ func init() {
 func runC11(c *harness.Ctx, idx int) {
 	r := c.Rand(idx)
 	mode := idx % 4 // 0,1: holders everywhere + only-remove (second hop possible); 2: random; 3: zoo
+	if idx%10 == 9 {
+		mode = 4 // by-value struct map/list values whose known fields are all required (or none), optional extras on the wire
+	}
 	var w, t *schema.Struct
 	class := ""
 	secondHop := false
@@ -51,6 +54,48 @@ func runC11(c *harness.Ctx, idx int) {
 		w = gen.RandomStruct(r, tc, 0)
 		t = gen.Evolve(r, w, &gen.EvolveCfg{Holder: 0}, 0)
 		class = "evolved-random-holders"
+	case 4:
+		// writer: S{required...; optional extras}; reader: S'{required... (or nothing); holder},
+		// held BY VALUE in a map and a list: entries with and without unknown fields alternate
+		nreq := r.Intn(3)
+		ws := &schema.Struct{UnknownIdx: -1}
+		ts := &schema.Struct{UnknownIdx: -1, HasUnknown: true}
+		kinds := []string{"i32", "string", "i64", "bool", "double", "binary"}
+		for i := 0; i < nreq; i++ {
+			ft := gen.FormType(r, kinds[r.Intn(len(kinds))], gen.DefaultTypeCfg(), 2)
+			ws.Fields = append(ws.Fields, &schema.Field{ID: uint16(1 + i), Req: schema.Required, T: ft})
+			ts.Fields = append(ts.Fields, &schema.Field{ID: uint16(1 + i), Req: schema.Required, T: ft})
+		}
+		for i := 0; i < 1+r.Intn(3); i++ {
+			ft := gen.FormType(r, kinds[r.Intn(len(kinds))], gen.DefaultTypeCfg(), 2)
+			if ft.K != schema.Binary {
+				ft = schema.PtrTo(ft)
+			}
+			ws.Fields = append(ws.Fields, &schema.Field{ID: uint16(20 + i), Req: schema.Optional, T: ft})
+		}
+		ws.Build()
+		ts.Build()
+		mk := func(s *schema.Struct) *schema.Struct {
+			o := &schema.Struct{UnknownIdx: -1, Fields: []*schema.Field{
+				{ID: 1, Req: schema.Default, T: schema.MapOf(gen.FormType(r, gen.KeyForms[r.Intn(8)], gen.DefaultTypeCfg(), 2), schema.StructOf(s, false))},
+				{ID: 2, Req: schema.Default, T: schema.ListOf(schema.StructOf(s, false))},
+				{ID: 3, Req: schema.Default, T: schema.StructOf(s, false)},
+			}}
+			if s == ts {
+				o.HasUnknown = true
+			}
+			o.Build()
+			return o
+		}
+		seedT := r.Uint64()
+		save := *r
+		*r = *gen.New(seedT)
+		w = mk(ws)
+		*r = *gen.New(seedT)
+		t = mk(ts)
+		*r = save
+		class = "byvalue-all-required-with-holder"
+		secondHop = true
 	default:
 		if r.Bool() {
 			w, t, class = gen.Zoo(&zoo.Node{}), gen.Zoo(&zoo.NodeU{}), "zoo:Node->NodeU"
